@@ -147,11 +147,20 @@ def cap_premises(prog: Program, rep, RID: str, cname: str, which=("P1", "P2", "P
     if v is None:
         raise AnalysisError(f"{cname}.__init__: no repetition cap is passed to the walk base class")
     e = _resolve(g, v)
+    if isinstance(e, ast.Name):
+        # a dict that is computed once and then patched item by item (`d = f(...)`, `d[k] = ...`): its description is the computation
+        name_defs = [st for st in ast.walk(g.node) if isinstance(st, ast.Assign) and any(isinstance(t, ast.Name) and t.id == e.id for t in st.targets)]
+        if len(name_defs) == 1:
+            e = name_defs[0].value
     # canonical form where it can be computed: accumulator loops become comprehensions, D.get(k, d) becomes `D[k] if k in D else d`, the
     # edge-data idioms (edges(data=True), G[u][v], G.edges[u, v]) become one
     try:
         from rules.common import canonical_value
-        e = ast.parse(canonical_value(g.node, v), mode="eval").body
+        e2 = ast.parse(canonical_value(g.node, v), mode="eval").body
+        # (a dict that is computed and then patched item by item has no closed canonical form: the canonical value is its bare name -
+        # the resolved definition is the better description then)
+        if not (isinstance(e2, ast.Name) and not isinstance(e, ast.Name)):
+            e = e2
     except (SyntaxError, AnalysisError):
         pass
     e = expand_get(e)
